@@ -85,7 +85,50 @@ fn check_program(src: &str, known: &[KnownFinding], all_points_limit: u64, exclu
     Ok(Some(st))
 }
 
+/// A session on a retained compiler and machine, judged by the ledger: no line meets a released or unknown block, dropping
+/// the machine and the compiler releases every block except what the results handed to the caller reach, the caller can
+/// release those exactly once, and nothing remains.
+pub fn check_session_ledger(lines: &[crate::props::c17::Line]) -> Result<(), Fail> {
+    let case = crate::props::c17::session_json(lines);
+    let mut s = crate::engine::session_begin();
+    let mut bad: Option<Fail> = None;
+    for (i, l) in lines.iter().enumerate() {
+        let o = s.line(&l.text(), l.cut.unwrap_or(crate::props::c17::BUDGET));
+        let heap_event = o.events.iter().find(|e| e.starts_with("heap") || e.starts_with("gc:")).cloned().or(match &o.outcome {
+            Outcome::Trap(m) if m.contains("heap") => Some(m.clone()),
+            _ => None,
+        });
+        if let Some(e) = heap_event {
+            let short: String = e.split(|c: char| c.is_ascii_digit()).next().unwrap_or(&e).trim().to_string();
+            bad = Some((format!("session:{short}"), case.clone(), format!("line {i} only meets blocks that are allocated and not yet released"), o.render()));
+            break;
+        }
+    }
+    let (drop_events, unowned, release_events, left) = s.end_audit();
+    crate::engine::install_gc_observer();
+    if let Some(f) = bad {
+        return Err(f);
+    }
+    if let Some(e) = drop_events.first() {
+        return Err(("session:event-while-dropping-the-machine".into(), case, "no block is released twice".into(), e.clone()));
+    }
+    if unowned > 0 {
+        return Err(("session:leak".into(), case, "after the machine and the compiler are gone only the handed-over results are allocated".into(), format!("{unowned} blocks that no result reaches are still allocated")));
+    }
+    if let Some(e) = release_events.first() {
+        return Err(("session:event-while-releasing-results".into(), case, "the caller can release the results exactly once".into(), e.clone()));
+    }
+    if left > 0 {
+        return Err(("session:blocks-left".into(), case, "nothing remains".into(), format!("{left} blocks")));
+    }
+    Ok(())
+}
+
 pub fn replay(case: &Value) -> Option<Violation> {
+    if case.get("session").is_some() {
+        let lines = crate::props::c17::lines_from_json(case)?;
+        return check_session_ledger(&lines).err().map(|f| Violation { property: "C04".into(), driver: "replay".into(), class: f.0, case: case.clone(), expected: f.2, observed: f.3 });
+    }
     if let Some(h) = case.get("history") {
         let ops = ops_from_json(h)?;
         return run_history(&ops, true).err().map(|(class, detail)| Violation { property: "C04".into(), driver: "replay".into(), class, case: case.clone(), expected: "the collector agrees with the reachability model".into(), observed: detail });
@@ -109,6 +152,7 @@ pub fn run_check(ctx: &Ctx) -> Report {
         "fault_enumeration",
         "programs of the `alloc` profile; each is run to completion under the shadow heap and then cut short with an injected error after k instructions for EVERY k below the length of the run (runs longer than 3000 instructions: the first 1000 and 1000 evenly spread others). \
          After each run the ledger is audited: the result graph must be live when returned, releasing it (each distinct object once) must leave no live block, no block may be freed twice; at the end of every collection the managed set must contain nothing unreachable. \
+         Plus generated sessions (C17's generator) on one retained compiler and machine, with the ledger audited over the whole life of the machine: no line meets a released block, dropping machine and compiler leaves only what the handed-over results reach, the caller releases that exactly once. \
          Plus the collector histories of C03 with the stronger oracle (garbage is actually freed by the cycle). \
          non-trivial = program that allocated >=3 heap objects and whose cycles freed something; abort points with >=1 object allocated are counted; distinct by program text",
     );
@@ -116,6 +160,7 @@ pub fn run_check(ctx: &Ctx) -> Report {
     rep.assumptions.push("objects still managed when the collector is destroyed are released by the harness (open known finding F-GC2), so that every other leak still shows".into());
     let cases = ctx.pick(2_500u32, 60_000u32) / ctx.shards as u32;
     let hist = ctx.pick(150_000u32, 4_000_000u32) / ctx.shards as u32;
+    let sessions = ctx.pick(40_000u32, 1_000_000u32) / ctx.shards as u32;
     let seed = ctx.seed;
     let shards = ctx.shards;
     let enum_len = ctx.pick(4usize, 5usize);
@@ -171,5 +216,25 @@ pub fn run_check(ctx: &Ctx) -> Report {
             }
         }
         history_driver(r, "C04", true, seed.wrapping_mul(236_887_691) + shard as u64, hist, shard, shards, enum_len);
+        // sessions on a retained machine: the ledger over the whole life of the machine
+        let fail = run_tapes(seed.wrapping_mul(141_650_939) + shard as u64, sessions, 300, |tape, shrinking| {
+            let lines = crate::props::c17::gen_session(tape);
+            if !shrinking {
+                r.eval();
+                r.count("sessions");
+                r.nontrivial(&format!("session:{lines:?}"));
+            }
+            check_session_ledger(&lines).map_err(|f| f.0)
+        });
+        if let Some((tape, _)) = fail {
+            let lines = crate::props::c17::gen_session(&tape);
+            if let Err(f) = check_session_ledger(&lines) {
+                let cls = f.0.clone();
+                let small = crate::props::c17::minimize_session(&lines, &mut |l| matches!(check_session_ledger(l), Err(g) if g.0 == cls));
+                if let Err(f) = check_session_ledger(&small) {
+                    r.violation(Violation { property: "C04".into(), driver: "sessions".into(), class: f.0, case: f.1, expected: f.2, observed: f.3 });
+                }
+            }
+        }
     })
 }
